@@ -81,6 +81,7 @@ package controller
 //@   requires @events-carry-complete-endpoints (typeis(evt, "*config.SvcAddEvent") ==> ifaceptr(evt, "*config.SvcAddEvent") != nil && epsok(ifaceptr(evt, "*config.SvcAddEvent").Endpoints)) && (typeis(evt, "*config.SvcEndpointEvent") ==> ifaceptr(evt, "*config.SvcEndpointEvent") != nil && epsok(ifaceptr(evt, "*config.SvcEndpointEvent").Added) && epsok(ifaceptr(evt, "*config.SvcEndpointEvent").Removed)) && (typeis(evt, "*config.SvcRemoveEvent") ==> ifaceptr(evt, "*config.SvcRemoveEvent") != nil) && (typeis(evt, "*config.SvcConfigEvent") ==> ifaceptr(evt, "*config.SvcConfigEvent") != nil)
 //@   modifies mapof(c.procs), procseq, hostaddat, hostrmat, cfgupdat, stopat, lastop, atombool
 //@   ensures @well-formed ctlwf(c)
+//@   ensures @trace-marks-stay-in-the-past hostaddat <= procseq && hostrmat <= procseq
 //@   ensures @endpoint-deltas-applied-as-computed-removals-first typeis(evt, "*config.SvcEndpointEvent") && hostaddat > old(procseq) && hostrmat > old(procseq) ==> hostrmat < hostaddat
 
 //@ func endpointsToHosts
@@ -94,3 +95,45 @@ package controller
 //@   prop C08
 //@   modifies nothing
 //@   ensures @no-processor-yet result0 != nil && ctlwf(result0) && len(result0.procs) == 0 && result1 == nil
+
+// ---- C09/C17/C08: shutting the controller down stops and unregisters every processor ------------------------
+
+//@ func (*Controller).stopAllProcs
+//@   prop C08 C09 C17
+//@   requires ctlwf(c)
+//@   modifies mapof(c.procs), procseq, stopat, lastop
+//@   callpre Stop @only-registered-processors-are-stopped has(c.procs, pname(arg0)) && c.procs[pname(arg0)] == arg0
+//@   ensures @no-processor-is-left ctlwf(c) && forall n string :: !has(c.procs, n)
+//@   loop 0 invariant ctlwf(c) && c.procs == old(c.procs) && forall n string :: has(visited0, n) ==> !has(c.procs, n)
+
+//@ func (*Controller).DrainListeners
+//@   prop C09 C17
+//@   requires ctlwf(c)
+//@   modifies nothing
+//@   callpre StopListen @only-registered-processors-are-drained has(c.procs, pname(arg0)) && c.procs[pname(arg0)] == arg0
+//@   loop 0 invariant procs != nil && fresh(procs) && forall n string :: has(procs, n) ==> has(c.procs, n) && procs[n] == c.procs[n]
+//@   loop 0 invariant forall n string :: has(visited0, n) ==> has(procs, n)
+//@   loop 1 invariant forall n string :: has(procs, n) ==> has(c.procs, n) && procs[n] == c.procs[n]
+
+//@ func (*Controller).Start$1$1
+//@   prop C08 C09 C17
+//@   requires deref(c) != nil && deref(c).done != nil && !closed(deref(c).done) && ctlwf(deref(c)) && hostaddat <= procseq && hostrmat <= procseq
+//@   modifies all, procseq, hostaddat, hostrmat, cfgupdat, stopat, lastop
+//@   callpre stopAllProcs @processors-are-stopped-all-at-once-only-on-shutdown waitedfor(deref(c).quit)
+//@   callpre handleEvent @every-received-event-is-handled-in-the-order-received arg0 == deref(c)
+//@   ensures @done-closed-on-return closed(old(deref(c)).done)
+//@   loop 0 invariant hostaddat <= procseq && hostrmat <= procseq
+//@   loop 0 assume ctlwf(deref(c))
+//@   assume @before:handleEvent evt != nil && (typeis(evt, "*config.SvcAddEvent") ==> ifaceptr(evt, "*config.SvcAddEvent") != nil && epsok(ifaceptr(evt, "*config.SvcAddEvent").Endpoints)) && (typeis(evt, "*config.SvcEndpointEvent") ==> ifaceptr(evt, "*config.SvcEndpointEvent") != nil && epsok(ifaceptr(evt, "*config.SvcEndpointEvent").Added) && epsok(ifaceptr(evt, "*config.SvcEndpointEvent").Removed)) && (typeis(evt, "*config.SvcRemoveEvent") ==> ifaceptr(evt, "*config.SvcRemoveEvent") != nil) && (typeis(evt, "*config.SvcConfigEvent") ==> ifaceptr(evt, "*config.SvcConfigEvent") != nil)
+
+//@ func (*Controller).Stop
+//@   prop C09 C17
+//@   requires c != nil && c.quit != nil && c.done != nil
+//@   modifies all
+//@   ensures @returns-only-after-the-event-loop-has-finished waitedfor(c.done)
+
+//@ func (*Controller).Start
+//@   prop C17 C09
+//@   requires c != nil
+//@   modifies ctlstarted
+//@   ghostdef ctlstarted == true
